@@ -391,6 +391,45 @@ def line_map_coordinates_agree(F, res, rule="D10"):
                     if "place" in rv:
                         st.append({"cp": rv["place"]})
                     st.extend(rv.get("ops", []) or [])
+    # the pair built inside a closure of an iterator chain (`.zip(0u32..).filter_map(|(&b, pos)| .. Some((pos, diff)))`): follow the
+    # receiver of the adaptor the closure is handed to
+    for cp in sorted(p_ for p_ in F.fns if p_.startswith(nm0.path + "::{closure") and F.fns[p_].blocks):
+        cf = F.fns[cp]
+        if not any((s_.get("rv") or {}).get("k") == "agg" and s_["rv"].get("agg") == "tuple" and len(s_["rv"]["ops"]) == 2 and
+                   "CodeUnitsDiff" in (cf.local_ty(s_["place"]["l"]) or "") for _b, _i, s_ in cf.stmts()):
+            continue
+        par = F.fns.get(cf.d.get("direct_parent"))
+        if par is None:
+            continue
+        dp = FL.Defs(par)
+        for b, i, s_ in par.stmts():
+            rv = s_.get("rv") or {}
+            if rv.get("k") == "agg" and rv.get("closure") == cp:
+                cl = s_["place"]["l"]
+                for b2, t2 in par.calls():
+                    if any(op_local(a) == cl or dp.origin_op(a).get("l") == cl for a in t2["args"][1:]):
+                        seen, st = set(), [t2["args"][0]]
+                        while st and len(seen) < 400:
+                            o = st.pop()
+                            pl = op_place(o) if isinstance(o, dict) else None
+                            if pl is None or pl["l"] in seen:
+                                continue
+                            seen.add(pl["l"])
+                            for dd in dp.defs.get(pl["l"], []):
+                                if dd[2] == "call":
+                                    st.extend(dd[3]["args"])
+                                else:
+                                    rv2 = dd[3]["rv"]
+                                    if rv2.get("k") == "agg" and (rv2.get("adt") or "").endswith(("range::RangeFrom", "range::Range", "range::RangeInclusive")) \
+                                            and (par.local_ty(pl["l"]) or "").endswith("<u32>"):
+                                        k = rv2["ops"][0].get("k") if isinstance(rv2["ops"][0], dict) else None
+                                        starts.append("const" if isinstance(k, dict) and "bits" in k else "variable")
+                                    for key in ("op", "a", "b"):
+                                        if isinstance(rv2.get(key), dict):
+                                            st.append(rv2[key])
+                                    if "place" in rv2:
+                                        st.append({"cp": rv2["place"]})
+                                    st.extend(rv2.get("ops", []) or [])
     writer = None if not starts else ("relative" if all(x == "const" for x in starts) else "absolute")
 
     def reader(name):
